@@ -13,6 +13,9 @@ import Emboss.Lemmas.TokTable
 import Emboss.Lemmas.TokBoundary
 import Emboss.Lemmas.TokLongest
 import Emboss.Lemmas.TokSplit
+import Emboss.Lemmas.TokLineSpec
+import Emboss.Lemmas.TokFileSpec
+import Emboss.Lemmas.TokBlankJoin
 import Emboss.Generated.TokTable
 namespace Emboss.Tok
 open Emboss.Regex Emboss.Generated
@@ -258,6 +261,197 @@ theorem C10_longest_match_documented (ln : Nat) (line : List Char) (segs : List 
     · rw [hm] at hn; cases hn; exact hle
     · have := hpost q hq n hn; omega
 
+/-! ## `_tokenize_line` *equals* the declarative maximal-munch specification -/
+
+/-- **Any pattern list.**  The model of `_tokenize_line` and the declarative specification
+(`Covers` = the line cut into consecutive non-empty best matches; `StuckAt k` = such a cut
+reaches offset `k` where a non-empty rest has no non-empty match) determine each other:
+it answers `ok ts` iff `ts` are the tokens of a cover, "Unrecognized token" at `k` iff the
+cut is stuck at `k`; covers are unique; and every line has a cover or a stuck position
+(never "out of fuel").  `C10_lossless` is the `→` direction of the first part, lifted to files. -/
+theorem C10_tokenize_line_eq_spec (pats : List Pat) (ln : Nat) (line : List Char) :
+    (∀ ts, tokLine pats ln line.length line 0 = .ok ts ↔
+      ∃ segs, Covers pats ln line 0 segs ∧ ts = tokensOf segs) ∧
+    (∀ k, tokLine pats ln line.length line 0 = .err k ↔ StuckAt pats line 0 k) ∧
+    (∀ segs₁ segs₂, Covers pats ln line 0 segs₁ → Covers pats ln line 0 segs₂ → segs₁ = segs₂) ∧
+    ((∃ segs, Covers pats ln line 0 segs) ∨ (∃ k, StuckAt pats line 0 k)) := by
+  refine ⟨?_, ?_, fun _ _ h₁ h₂ => h₁.unique h₂, ?_⟩
+  · intro ts
+    constructor
+    · exact tokLine_covers pats ln _ _ _ ts
+    · rintro ⟨segs, hc, rfl⟩
+      exact hc.tokLine_eq _ (Nat.le_refl _)
+  · intro k
+    exact ⟨tokLine_err_stuck pats ln _ _ _ k, fun h => h.tokLine_eq ln _ (Nat.le_refl _)⟩
+  · cases h : tokLine pats ln line.length line 0 with
+    | fuel => exact absurd h (tokLine_no_fuel pats ln _ _ _ (Nat.le_refl _))
+    | err k => exact .inr ⟨k, tokLine_err_stuck pats ln _ _ _ k h⟩
+    | ok ts =>
+      obtain ⟨segs, hc, _⟩ := tokLine_covers pats ln _ _ _ ts h
+      exact .inl ⟨segs, hc⟩
+
+/-- **`tokenize` equals its declarative specification** (any pattern list): it answers
+`ok toks` iff `toks` is the `FileCover` of the text's lines (so `C10_lossless` is an
+equivalence, and the cover is unique); it answers an error iff the text `FileFails` with
+exactly that message and location — the lines before the failing one have covers and
+indentation steps, and the failing line is stuck at offset `k` ("Unrecognized token",
+columns `k+1`–`k+2`) or is a non-blank line whose leading whitespace neither extends the
+innermost open level nor equals an open one ("Bad indentation", over the leading whitespace);
+and one of the two always holds. -/
+theorem C10_tokenize_eq_spec (pats : List Pat) (text : List Char) :
+    (∀ toks, tokenize pats text = .ok toks ↔ FileCover pats (splitLines text) 1 ⟨[], []⟩ toks) ∧
+    (∀ msg a b c d, tokenize pats text = .err msg a b c d ↔
+      FileFails pats (splitLines text) 1 ⟨[], []⟩ msg a b c d) ∧
+    (∀ t₁ t₂, FileCover pats (splitLines text) 1 ⟨[], []⟩ t₁ →
+      FileCover pats (splitLines text) 1 ⟨[], []⟩ t₂ → t₁ = t₂) ∧
+    ((∃ toks, FileCover pats (splitLines text) 1 ⟨[], []⟩ toks) ∨
+      (∃ msg a b c d, FileFails pats (splitLines text) 1 ⟨[], []⟩ msg a b c d)) := by
+  refine ⟨fun toks => ⟨tokLines_cover pats _ _ _ _, fun h => h.tokLines_eq⟩,
+    fun msg a b c d => ⟨tokLines_err_fails pats _ _ _ _ _ _ _ _, fun h => h.tokLines_eq⟩, ?_, ?_⟩
+  · intro t₁ t₂ h₁ h₂
+    have e₁ := h₁.tokLines_eq
+    rw [h₂.tokLines_eq] at e₁
+    cases e₁; rfl
+  · cases h : tokenize pats text with
+    | fuel => exact absurd h (C10_tokenize_fuel_sufficient pats text)
+    | ok toks => exact .inl ⟨toks, tokLines_cover pats _ _ _ _ h⟩
+    | err msg a b c d => exact .inr ⟨msg, a, b, c, d, tokLines_err_fails pats _ _ _ _ _ _ _ _ h⟩
+
+/-- Non-vacuity (tests by evaluation): both kinds of declared failure occur. -/
+example : FileFails tokTable.pats (splitLines "a\n  b\n c".toList) 1 ⟨[], []⟩ "Bad indentation" 3 1 3 2 ∧
+    FileFails tokTable.pats (splitLines "a\n b ~".toList) 1 ⟨[], []⟩ "Unrecognized token" 2 4 2 5 :=
+  ⟨((C10_tokenize_eq_spec _ _).2.1 _ _ _ _ _).mp (by decide +kernel),
+   ((C10_tokenize_eq_spec _ _).2.1 _ _ _ _ _).mp (by decide +kernel)⟩
+
+/-- **The regenerated table.**  The same with the specification phrased through the
+documented patterns' *languages* only (no matcher, no backtracking order): `MunchCovers` /
+`MunchStuck` use `IsBestLang` — the greatest length any pattern's language matches at that
+position, the earliest pattern among those reaching it. -/
+theorem C10_tokenize_line_eq_documented_spec (ln : Nat) (line : List Char) :
+    (∀ ts, tokLine tokTable.pats ln line.length line 0 = .ok ts ↔
+      ∃ segs, MunchCovers tokTable.pats ln line 0 segs ∧ ts = tokensOf segs) ∧
+    (∀ k, tokLine tokTable.pats ln line.length line 0 = .err k ↔ MunchStuck tokTable.pats line 0 k) := by
+  obtain ⟨h1, h2, _, _⟩ := C10_tokenize_line_eq_spec tokTable.pats ln line
+  constructor
+  · intro ts
+    rw [h1 ts]
+    constructor
+    · rintro ⟨segs, hc, e⟩; exact ⟨segs, (covers_iff_munch priority_is_longest_all _ _ _ _).mp hc, e⟩
+    · rintro ⟨segs, hc, e⟩; exact ⟨segs, (covers_iff_munch priority_is_longest_all _ _ _ _).mpr hc, e⟩
+  · intro k
+    rw [h2 k]
+    exact stuck_iff_munch priority_is_longest_all _ _ _
+
+/-- Non-vacuity (tests by evaluation): a line with a cover, a line that gets stuck. -/
+example : (∃ segs, MunchCovers tokTable.pats 1 "a  0x_1".toList 0 segs ∧
+      tokensOf segs = [⟨"SnakeWord", ['a'], 1, 1, 1, 2⟩, ⟨"Number", "0x_1".toList, 1, 4, 1, 8⟩]) ∧
+    MunchStuck tokTable.pats "a ~".toList 0 2 := by
+  constructor
+  · obtain ⟨segs, h, e⟩ := ((C10_tokenize_line_eq_documented_spec 1 "a  0x_1".toList).1 _).mp
+      (by decide +kernel : tokLine tokTable.pats 1 _ "a  0x_1".toList 0 = .ok
+        [⟨"SnakeWord", ['a'], 1, 1, 1, 2⟩, ⟨"Number", "0x_1".toList, 1, 4, 1, 8⟩])
+    exact ⟨segs, h, e.symm⟩
+  · exact ((C10_tokenize_line_eq_documented_spec 1 "a ~".toList).2 2).mp (by decide +kernel)
+
+/-! ## Tokens separated by a blank are tokenized independently -/
+
+/-- **Concatenation with a blank** (regenerated table; what a renderer that separates tokens
+by blanks needs).  Let the line `a` tokenize to `ta`, none of them a Comment / Documentation /
+BadDocumentation (those run to the end of the line by definition), `a` not ending in a blank,
+and let `c` be any blank (`str.isspace`).  Then for every `b` the line `a ++ c :: b`
+tokenizes to `ta` followed by the tokens of `c :: b` with their columns shifted by `|a|` —
+and if `c :: b` has an unrecognized character at offset `k`, the whole line reports it at
+`|a| + k`.  In particular no token of `a` changes its text, symbol or position because of
+what follows the blank, and no token spans the blank.  (Proof: at every position of `a`
+where a token or inner gap starts, no pattern of the table changes its answer when
+`c :: b` is appended — `table_local`.) -/
+theorem C10_concat_with_blank (ln : Nat) (a b : List Char) (c : Char) (ta : List Token)
+    (ha : tokLine tokTable.pats ln a.length a 0 = .ok ta)
+    (hopen : ∀ t ∈ ta, t.sym ≠ "Comment" ∧ t.sym ≠ "Documentation" ∧ t.sym ≠ "BadDocumentation")
+    (hlast : ∀ y, a.getLast? = some y → isSpaceChar y = false)
+    (hc : isSpaceChar c = true) :
+    (∀ tb, tokLine tokTable.pats ln (c :: b).length (c :: b) 0 = .ok tb →
+      tokLine tokTable.pats ln (a ++ c :: b).length (a ++ c :: b) 0 =
+        .ok (ta ++ tb.map (Token.shift a.length))) ∧
+    (∀ k, tokLine tokTable.pats ln (c :: b).length (c :: b) 0 = .err k →
+      tokLine tokTable.pats ln (a ++ c :: b).length (a ++ c :: b) 0 = .err (k + a.length)) := by
+  have hopen' : ∀ t ∈ ta, ¬ OpenEnded t.sym := by
+    intro t ht ho
+    obtain ⟨h1, h2, h3⟩ := hopen t ht
+    rcases ho with h | h | h
+    · exact h1 h
+    · exact h2 h
+    · exact h3 h
+  exact tokLine_concat_blank ln a b c ta ha hopen' hlast hc
+
+/-- **Leading blanks are one gap** (regenerated table): a non-empty run of blanks `c :: ws`
+in front of `b` (which is empty or starts with a non-blank) only shifts the columns of `b`'s
+tokens (or of its "Unrecognized token" position) by the length of the run.  Together with
+`C10_concat_with_blank`: `a ++ blanks ++ b` tokenizes to the tokens of `a` and the shifted
+tokens of `b`. -/
+theorem C10_leading_blanks (ln : Nat) (c : Char) (ws b : List Char)
+    (hws : (c :: ws).all isSpaceChar = true) (hb : ∀ y, b.head? = some y → isSpaceChar y = false) :
+    (∀ tb, tokLine tokTable.pats ln b.length b 0 = .ok tb →
+      tokLine tokTable.pats ln (c :: ws ++ b).length (c :: ws ++ b) 0 =
+        .ok (tb.map (Token.shift (c :: ws).length))) ∧
+    (∀ k, tokLine tokTable.pats ln b.length b 0 = .err k →
+      tokLine tokTable.pats ln (c :: ws ++ b).length (c :: ws ++ b) 0 = .err (k + (c :: ws).length)) :=
+  tokLine_blank_prefix ln hws hb
+
+/-- **Pieces joined by single blanks tokenize piecewise** (the separability fact a formatter
+needs).  `ps` = pieces with their own tokenizations: each piece non-empty, starting and ending
+with a non-blank, `tokLine piece = ok toks` (`GoodPiece`); no piece but the last contains an
+open-ended token.  Then the pieces joined by the blank `c` tokenize to the concatenation of the
+pieces' token lists, each shifted to the column where its piece starts (`joinToks`). -/
+theorem C10_join_with_blanks (ln : Nat) (c : Char) (hc : isSpaceChar c = true)
+    (ps : List (List Char × List Token)) (hg : ∀ p ∈ ps, GoodPiece ln p)
+    (ho : ∀ p ∈ ps.dropLast, ∀ t ∈ p.2, t.sym ≠ "Comment" ∧ t.sym ≠ "Documentation" ∧
+      t.sym ≠ "BadDocumentation") :
+    tokLine tokTable.pats ln (joinWith c (ps.map Prod.fst)).length (joinWith c (ps.map Prod.fst)) 0 =
+      .ok (joinToks ps) := by
+  apply tokLine_join ln c hc ps hg
+  intro p hp t ht hopen
+  obtain ⟨h1, h2, h3⟩ := ho p hp t ht
+  rcases hopen with h | h | h
+  · exact h1 h
+  · exact h2 h
+  · exact h3 h
+
+/-- Non-vacuity of `C10_join_with_blanks` (by evaluation): three good pieces, the last one a comment. -/
+example : GoodPiece 1 ("x+1".toList, [⟨"SnakeWord", ['x'], 1, 1, 1, 2⟩, ⟨"\"+\"", ['+'], 1, 2, 1, 3⟩,
+      ⟨"Number", ['1'], 1, 3, 1, 4⟩]) ∧
+    GoodPiece 1 ("\"s t\"".toList, [⟨"String", "\"s t\"".toList, 1, 1, 1, 6⟩]) ∧
+    GoodPiece 1 ("# c".toList, [⟨"Comment", "# c".toList, 1, 1, 1, 4⟩]) ∧
+    joinWith ' ' ["x+1".toList, "\"s t\"".toList, "# c".toList] = "x+1 \"s t\" # c".toList := by
+  refine ⟨⟨by decide, by decide, by decide, by decide +kernel⟩, ⟨by decide, by decide, by decide, by decide +kernel⟩,
+    ⟨by decide, by decide, by decide, by decide +kernel⟩, by decide⟩
+
+/-- Non-vacuity (tests by evaluation): `x+1` and ` "s" y` are tokenized independently; so are
+`1` and ` ~`, the error moving from offset 1 to offset 2. -/
+example :
+    tokLine tokTable.pats 1 3 "x+1".toList 0 = .ok [⟨"SnakeWord", ['x'], 1, 1, 1, 2⟩,
+      ⟨"\"+\"", ['+'], 1, 2, 1, 3⟩, ⟨"Number", ['1'], 1, 3, 1, 4⟩] ∧
+    tokLine tokTable.pats 1 6 " \"s\" y".toList 0 = .ok [⟨"String", "\"s\"".toList, 1, 2, 1, 5⟩,
+      ⟨"SnakeWord", ['y'], 1, 6, 1, 7⟩] ∧
+    tokLine tokTable.pats 1 9 "x+1 \"s\" y".toList 0 = .ok [⟨"SnakeWord", ['x'], 1, 1, 1, 2⟩,
+      ⟨"\"+\"", ['+'], 1, 2, 1, 3⟩, ⟨"Number", ['1'], 1, 3, 1, 4⟩,
+      ⟨"String", "\"s\"".toList, 1, 5, 1, 8⟩, ⟨"SnakeWord", ['y'], 1, 9, 1, 10⟩] ∧
+    tokLine tokTable.pats 1 2 " ~".toList 0 = .err 1 ∧
+    tokLine tokTable.pats 1 3 "1 ~".toList 0 = .err 2 := by
+  refine ⟨?_, ?_, ?_, ?_, ?_⟩ <;> decide +kernel
+
+/-- … and the hypotheses of `C10_concat_with_blank` are satisfiable: an instance (`a = "x+1"`, `c = ' '`, any `b`). -/
+example (b : List Char) (tb : List Token)
+    (hb : tokLine tokTable.pats 1 (' ' :: b).length (' ' :: b) 0 = .ok tb) :
+    tokLine tokTable.pats 1 ("x+1".toList ++ ' ' :: b).length ("x+1".toList ++ ' ' :: b) 0 =
+      .ok ([⟨"SnakeWord", ['x'], 1, 1, 1, 2⟩, ⟨"\"+\"", ['+'], 1, 2, 1, 3⟩, ⟨"Number", ['1'], 1, 3, 1, 4⟩] ++
+        tb.map (Token.shift 3)) :=
+  (C10_concat_with_blank 1 "x+1".toList b ' ' _ (by decide +kernel) (by decide) (by decide) (by decide)).1 tb hb
+
+/-- The hypothesis about open-ended tokens is needed: a comment swallows what follows. -/
+example : tokLine tokTable.pats 1 4 "#c x".toList 0 = .ok [⟨"Comment", "#c x".toList, 1, 1, 1, 5⟩] := by
+  decide +kernel
+
 /-! ## Classification of names and numbers (table-specific)
 
 `WordRun w rest`: the tokenizer stands at the start of `w ++ rest`, `w` is a non-empty run
@@ -291,35 +485,47 @@ example : WordRun "ab_1".toList " x".toList ∧ classifyWord "ab_1".toList = "Sn
   ⟨⟨by decide, by decide, by intro c hc; cases hc; decide⟩, by decide, by decide, by decide, by decide,
     by decide, by decide, by decide, by decide, by decide, by decide⟩
 
-/-- **Numbers.**  A run starting with a digit is Number iff it is a numeric constant in a
-form the reference documents (`IsNumberDoc`: decimal / `0x` / `0b`, without separators or
-with 3-digit resp. consistent 4- or 8-digit groups) or in the one extra form the
-tokenizer accepts (`IsNumberRadixUnderscore`: a `_` directly after `0x`/`0b`); otherwise
-it is BadNumber if it has the catch-all number shape, else BadWord.
-
-Full statement wanted by the property (`Number ↔ IsNumberDoc w`) is *false* for the code:
-see `C10_number_classes_counterexample`; hence `_partial`, the excluded inputs being
-exactly `IsNumberRadixUnderscore`. -/
-theorem C10_number_classes_partial (w rest : List Char) (h : WordRun w rest) (x : Char) (t : List Char)
+/-- **Numbers.**  A run starting with a digit is `Number` **iff** it is a numeric constant as
+doc/language-reference.md ("Numeric Constant Formats") describes them (`IsNumberDoc`: decimal /
+`0x` / `0b`, without separators or with 3-digit resp. consistent 4- or 8-digit groups,
+optionally — for `0x`/`0b` — with a single `_` directly after the prefix before the first
+group); otherwise it is `BadNumber` iff it has the catch-all number shape, else `BadWord`.
+All strings, full statement (round 1 had `_partial`: the reference did not describe the
+`0x_…` form until /repo commit 1c861f8). -/
+theorem C10_number_classes (w rest : List Char) (h : WordRun w rest) (x : Char) (t : List Char)
     (hw : w = x :: t) (hx : isDigit x = true) :
     ∃ sym, bestMatch tokTable.pats (w ++ rest) 0 none = some (w.length, some sym) ∧
-      ((IsNumberDoc w ∨ IsNumberRadixUnderscore w) → sym = "Number") ∧
-      (¬ (IsNumberDoc w ∨ IsNumberRadixUnderscore w) → isBadNumberShape w = true → sym = "BadNumber") ∧
-      (¬ (IsNumberDoc w ∨ IsNumberRadixUnderscore w) → isBadNumberShape w = false → sym = "BadWord") :=
-  bestMatch_digit h x t hw hx
+      (sym = "Number" ↔ IsNumberDoc w) ∧
+      (sym = "BadNumber" ↔ ¬ IsNumberDoc w ∧ isBadNumberShape w = true) ∧
+      (sym = "BadWord" ↔ ¬ IsNumberDoc w ∧ isBadNumberShape w = false) := by
+  obtain ⟨sym, hb, h1, h2, h3⟩ := bestMatch_digit h x t hw hx
+  refine ⟨sym, hb, ?_⟩
+  by_cases hn : IsNumberDoc w
+  · have := h1 hn; subst this
+    exact ⟨⟨fun _ => hn, fun _ => rfl⟩, ⟨(fun hc => absurd hc (by decide)), fun hc => absurd hn hc.1⟩,
+      ⟨(fun hc => absurd hc (by decide)), fun hc => absurd hn hc.1⟩⟩
+  · cases hs : isBadNumberShape w with
+    | true =>
+      have := h2 hn hs; subst this
+      exact ⟨⟨(fun hc => absurd hc (by decide)), fun hc => absurd hc hn⟩, ⟨fun _ => ⟨hn, rfl⟩, fun _ => rfl⟩,
+        ⟨(fun hc => absurd hc (by decide)), (fun hc => by cases hc.2)⟩⟩
+    | false =>
+      have := h3 hn hs; subst this
+      exact ⟨⟨(fun hc => absurd hc (by decide)), fun hc => absurd hc hn⟩, ⟨(fun hc => absurd hc (by decide)), (fun hc => by cases hc.2)⟩,
+        ⟨fun _ => ⟨hn, rfl⟩, fun _ => rfl⟩⟩
 
 /-- The classification theorems apply to every token of a real tokenization: a token of a
 cover (of the regenerated table) that starts where a maximal word run `w` starts is exactly
-`w`, with the symbol `C10_word_classes` / `C10_number_classes_partial` give for `w`. -/
+`w`, with the symbol `C10_word_classes` / `C10_number_classes` give for `w`. -/
 theorem C10_word_tokens (ln : Nat) (line : List Char) (segs : List Seg)
     (h : Covers tokTable.pats ln line 0 segs) (t : Token) (ht : t ∈ tokensOf segs)
     (w rest : List Char) (hs : line.drop (t.sc - 1) = w ++ rest) (hr : WordRun w rest) :
     t.text = w ∧
     ((∀ x u, w = x :: u → isDigit x = false) → t.sym = classifyWord w) ∧
     (∀ x u, w = x :: u → isDigit x = true →
-      ((IsNumberDoc w ∨ IsNumberRadixUnderscore w) → t.sym = "Number") ∧
-      (¬ (IsNumberDoc w ∨ IsNumberRadixUnderscore w) → isBadNumberShape w = true → t.sym = "BadNumber") ∧
-      (¬ (IsNumberDoc w ∨ IsNumberRadixUnderscore w) → isBadNumberShape w = false → t.sym = "BadWord")) := by
+      (t.sym = "Number" ↔ IsNumberDoc w) ∧
+      (t.sym = "BadNumber" ↔ ¬ IsNumberDoc w ∧ isBadNumberShape w = true) ∧
+      (t.sym = "BadWord" ↔ ¬ IsNumberDoc w ∧ isBadNumberShape w = false)) := by
   obtain ⟨htext, hb⟩ := cover_word_token h ht hs hr
   refine ⟨htext, ?_, ?_⟩
   · intro hd
@@ -327,7 +533,7 @@ theorem C10_word_tokens (ln : Nat) (line : List Char) (segs : List Seg)
     rw [hb] at this
     simpa using this
   · intro x u hw hx
-    obtain ⟨sym, hb', h1, h2, h3⟩ := bestMatch_digit hr x u hw hx
+    obtain ⟨sym, hb', h1, h2, h3⟩ := C10_number_classes w rest hr x u hw hx
     rw [hb] at hb'
     have : t.sym = sym := by simpa using hb'
     rw [this]
@@ -366,49 +572,29 @@ theorem C10_word_tokens_are_maximal_runs (ln : Nat) (line : List Char) (segs : L
     obtain ⟨a, ha, hwa⟩ := i2 (by omega)
     exact ⟨a, by simpa using ha, hwa⟩
 
-theorem not_grouped_us (dig : Char → Bool) (hd : dig '_' = false) (a b : Nat) (t : List Char) :
-    ¬ Grouped dig a b ('_' :: t) := by
-  rintro ⟨g0, gs, hb, h1, _, h3, _⟩
-  cases g0 with
-  | nil => simp at h1
-  | cons y g0' =>
-    simp only [List.cons_append, List.cons.injEq] at hb
-    simp only [List.all_cons, Bool.and_eq_true] at h3
-    rw [← hb.1, hd] at h3
-    exact absurd h3.1 (by simp)
-
-/-- `0x_1` is tokenized as a Number although it is not a numeric constant of
-doc/language-reference.md (a `_` that is not a 4- or 8-digit separator). -/
-theorem C10_number_classes_counterexample :
-    bestMatch tokTable.pats "0x_1".toList 0 none = some (4, some "Number") ∧
-      ¬ IsNumberDoc "0x_1".toList := by
-  refine ⟨by decide +kernel, ?_⟩
-  have hrun : WordRun "0x_1".toList [] := ⟨by decide, by decide, by intro c hc; cases hc⟩
-  rintro ((hp | hg) | ⟨body, hw, hb⟩ | ⟨body, hw, _⟩)
-  · revert hp; decide
-  · have := (full_decGrouped hrun).mpr hg
-    revert this; decide +kernel
-  · have : body = ['_', '1'] := by
-      have : "0x_1".toList = ['0', 'x', '_', '1'] := by decide
-      rw [this] at hw; simp only [List.cons.injEq, true_and] at hw; exact hw.symm
-    subst this
-    rcases hb with hp | hg | hg
-    · revert hp; decide
-    · exact not_grouped_us _ (by decide) _ _ _ hg
-    · exact not_grouped_us _ (by decide) _ _ _ hg
-  · have : "0x_1".toList = ['0', 'x', '_', '1'] := by decide
-    rw [this] at hw; simp only [List.cons.injEq, true_and] at hw
-    exact absurd hw.1 (by decide)
-
-/-- Non-vacuity of `C10_number_classes_partial`: documented forms and rejected ones. -/
+/-- Non-vacuity of `C10_number_classes`: documented forms (every kind the reference lists,
+among them its own examples `0x_ff`, `0b_1010_0101`) and rejected ones. -/
 example : IsNumberDoc "1_000".toList ∧ IsNumberDoc "0x1234_5678".toList ∧ IsNumberDoc "012".toList ∧
-    IsNumberRadixUnderscore "0b_0000_0000".toList ∧ isBadNumberShape "1000_000".toList = true := by
-  refine ⟨.inl (.inr ⟨['1'], [['0', '0', '0']], by decide, by decide, by decide, by decide, by decide⟩),
-    .inr (.inl ⟨"1234_5678".toList, by decide, .inr (.inl
-      ⟨['1', '2', '3', '4'], [['5', '6', '7', '8']], by decide, by decide, by decide, by decide, by decide⟩)⟩),
-    .inl (.inl (by decide)),
-    .inr ⟨"0000_0000".toList, by decide, .inl
-      ⟨['0', '0', '0', '0'], [['0', '0', '0', '0']], by decide, by decide, by decide, by decide, by decide⟩⟩,
+    IsNumberDoc "0b_1010_0101".toList ∧ IsNumberDoc "0x_ff".toList ∧
+    isBadNumberShape "1000_000".toList = true := by
+  refine ⟨.inl (.inl (.inr ⟨['1'], [['0', '0', '0']], by decide, by decide, by decide, by decide, by decide⟩)),
+    .inl (.inr (.inl ⟨"1234_5678".toList, by decide, .inr (.inl
+      ⟨['1', '2', '3', '4'], [['5', '6', '7', '8']], by decide, by decide, by decide, by decide, by decide⟩)⟩)),
+    .inl (.inl (.inl (by decide))),
+    .inr (.inr ⟨"1010_0101".toList, by decide, .inl
+      ⟨['1', '0', '1', '0'], [['0', '1', '0', '1']], by decide, by decide, by decide, by decide, by decide⟩⟩),
+    .inr (.inl ⟨"ff".toList, by decide, .inl
+      ⟨['f', 'f'], [], by decide, by decide, by decide, by decide, by simp⟩⟩),
     by decide⟩
+
+/-- Tests (by evaluation on the regenerated table) at the boundary of the new form: the
+reference's examples are Numbers; two `_`, a 9-digit run after `0x_`, and mixed 4/8 groups
+after `0x_` are BadNumber (and, by `C10_number_classes`, not `IsNumberDoc`). -/
+example : bestMatch tokTable.pats "0x_ff".toList 0 none = some (5, some "Number") ∧
+    bestMatch tokTable.pats "0x_1234_5678".toList 0 none = some (12, some "Number") ∧
+    bestMatch tokTable.pats "0x__1".toList 0 none = some (5, some "BadNumber") ∧
+    bestMatch tokTable.pats "0x_123456789".toList 0 none = some (12, some "BadNumber") ∧
+    bestMatch tokTable.pats "0x_1234_5678_9abcdef0".toList 0 none = some (21, some "BadNumber") := by
+  refine ⟨?_, ?_, ?_, ?_, ?_⟩ <;> decide +kernel
 
 end Emboss.Tok
